@@ -227,7 +227,7 @@ func ruleSRTTags(p *Prog, l *Ledger, tier string) {
 		// not decided for this shape (it is for the direct one, which the pinned tree has)
 		l.Add(Ob{Rule: rule, Key: key, Status: Info, Why: fmt.Sprintf("tags are not emitted as a sequence of constants (opens %v, closes %v in source order): closing order not decided for a table-driven writer", opens, closes)})
 		for _, o := range opens {
-			if start[o] == nil {
+			if start[o] == nil && len(start) > 0 {
 				l.Fail(rule, "LineItem.srtBytes", rule+"|writer-tag|"+o, "", "the writer emits <"+o+"> which the reader's tag switch does not handle")
 			}
 		}
@@ -246,6 +246,8 @@ func ruleSRTTags(p *Prog, l *Ledger, tier string) {
 		k2 := rule + "|writer-tag|" + o
 		if start[o] != nil {
 			l.Prove(rule, "LineItem.srtBytes", k2, "", "the reader handles <"+o+">")
+		} else if len(start) == 0 {
+			// the reader's tag handlers were not extracted at all (reported above as undecided): nothing to compare with
 		} else {
 			l.Fail(rule, "LineItem.srtBytes", k2, "", "the writer emits <"+o+"> which the reader's tag switch does not handle")
 		}
@@ -263,6 +265,16 @@ func ruleWebVTTSettings(p *Prog, l *Ledger, tier string) {
 	}
 	// reader: split[0] switches, grouped by the separator of the Split call that produced split
 	sepOf := func(v ssa.Value) string {
+		// key, value, found := strings.Cut(setting, ":")
+		if ex, ok := v.(*ssa.Extract); ok && ex.Index == 0 {
+			if call, ok := ex.Tuple.(*ssa.Call); ok {
+				if sc := call.Call.StaticCallee(); sc != nil && sc.String() == "strings.Cut" {
+					s, _ := constStr(call.Call.Args[1])
+					return s
+				}
+			}
+			return ""
+		}
 		u, ok := v.(*ssa.UnOp)
 		if !ok {
 			return ""
@@ -278,8 +290,15 @@ func ruleWebVTTSettings(p *Prog, l *Ledger, tier string) {
 		if !ok {
 			return ""
 		}
-		if sc := call.Call.StaticCallee(); sc == nil || sc.String() != "strings.Split" {
+		sc := call.Call.StaticCallee()
+		if sc == nil || (sc.String() != "strings.Split" && sc.String() != "strings.SplitN") {
 			return ""
+		}
+		if sc.String() == "strings.SplitN" {
+			// the first piece is the same as Split's as soon as two pieces are allowed
+			if n, ok := constInt(call.Call.Args[2]); !ok || (n >= 0 && n < 2) {
+				return ""
+			}
 		}
 		s, _ := constStr(call.Call.Args[1])
 		return s
